@@ -19,15 +19,16 @@ work="$here/../run/fuzz-$target-$$"; rm -rf "$work"; mkdir -p "$work/seeded" "$w
 "$here/../target/release/mzv" gencorpus "$target" "$work/seeded" 400 "$seed" || exit 2
 ncpu=$(nproc); half=$(( ncpu / 2 )); [ $half -lt 1 ] && half=1
 t0=$(date +%s)
-( cd "$work/seeded" && ASAN_OPTIONS=detect_leaks=0 "$bin" -runs="$runs" -seed="$seed" -max_len=4096 -len_control=0 -print_final_stats=1 -jobs=$half -workers=$half -artifact_prefix="$work/art/" . >/dev/null 2>&1 ) &
-( cd "$work/empty" && ASAN_OPTIONS=detect_leaks=0 "$bin" -runs="$runs" -seed="$((seed+1))" -max_len=2048 -print_final_stats=1 -jobs=$half -workers=$half -artifact_prefix="$work/art/" . >/dev/null 2>&1 ) &
+( cd "$work/seeded" && ASAN_OPTIONS=detect_leaks=0 "$bin" -runs="$runs" -seed="$seed" -max_len=4096 -len_control=0 -timeout=120 -report_slow_units=120 -rss_limit_mb=6000 -print_final_stats=1 -jobs=$half -workers=$half -artifact_prefix="$work/art/" . >/dev/null 2>&1 ) &
+( cd "$work/empty" && ASAN_OPTIONS=detect_leaks=0 "$bin" -runs="$runs" -seed="$((seed+1))" -max_len=2048 -timeout=120 -report_slow_units=120 -rss_limit_mb=6000 -print_final_stats=1 -jobs=$half -workers=$half -artifact_prefix="$work/art/" . >/dev/null 2>&1 ) &
 wait
 t1=$(date +%s)
 execs=$(cat "$work"/*/fuzz-*.log 2>/dev/null | grep -a "stat::number_of_executed_units" | awk '{s+=$2} END {print s+0}')
 cov=$(cat "$work"/*/fuzz-*.log 2>/dev/null | grep -a -oE "cov: [0-9]+" | awk '{if ($2>m) m=$2} END {print m+0}')
 corp=$(ls "$work/seeded" "$work/empty" 2>/dev/null | grep -vc "fuzz-.*log")
 viol=$(cat "$work"/*/fuzz-*.log 2>/dev/null | grep -a "^FUZZ-VIOLATION" | sort -u)
-other=$(ls "$work/art" 2>/dev/null | wc -l)
+other=$(ls "$work/art" 2>/dev/null | grep -c "^crash-")
+inconclusive=$(ls "$work/art" 2>/dev/null | grep -vc "^crash-")
 python3 - "$root/evidence/$id.json" "$target" "$execs" "$cov" "$corp" "$((t1-t0))" "$runs" <<'PY'
 import json,sys
 p,target,execs,cov,corp,secs,runs=sys.argv[1:8]
@@ -39,14 +40,14 @@ try:
 except Exception as ex:
     print('could not merge fuzz stats into evidence:',ex)
 PY
-echo "libFuzzer $target: $execs executions, edge coverage $cov, corpus $corp files, $((t1-t0))s"
+echo "libFuzzer $target: $execs executions, edge coverage $cov, corpus $corp files, $((t1-t0))s, $inconclusive slow/timeout/oom artifacts (not violations)"
 rc=0
 if [ -n "$viol" ]; then
   echo "$viol" | while read -r line; do r=$(echo "$line" | sed -n 's/.*replay=\([^ ]*\).*/\1/p'); echo "violation (libFuzzer): $line" | cut -c1-300; echo "VIOLATION property=$id replay=$r"; done
   rc=1
 elif [ "$other" -gt 0 ]; then
   # crash without a property verdict (e.g. ASan report): keep the artifact as the replay
-  mkdir -p "$root/replays/$id/found"; for f in "$work"/art/*; do cp "$f" "$root/replays/$id/found/libfuzzer-$(basename "$f")"; echo "VIOLATION property=$id replay=$root/replays/$id/found/libfuzzer-$(basename "$f")"; done
+  mkdir -p "$root/replays/$id/found"; for f in "$work"/art/crash-*; do cp "$f" "$root/replays/$id/found/libfuzzer-$(basename "$f")"; echo "VIOLATION property=$id replay=$root/replays/$id/found/libfuzzer-$(basename "$f")"; done
   rc=1
 fi
 rm -rf "$work"
